@@ -561,3 +561,45 @@ def rule_densify(prog: Program, modules: Optional[Set[str]] = None) -> List[Inst
                 out.append(Instance("R-DENSIFY", cid, BAD,
                                     f"`{short(n, 60)}` projects a region by its vertices only: edges that are straight in its CRS bulge in the target CRS, so a bounding box / tile test taken from the result misses what lies under the bulge (pass resolution=...)", fi.where(n)))
     return out
+
+
+# ---------------------------------------------------------------------------------------------
+# R-TERMINATION: a while loop that advances by a caller-supplied step
+# ---------------------------------------------------------------------------------------------
+def rule_termination(prog: Program, modules: Optional[Set[str]] = None) -> List[Instance]:
+    """`while a < b: ... a += step` terminates only if step > 0. Where the step comes (directly) from a
+    parameter, the loop must be reached only with that parameter known positive - a guard that raises or
+    returns otherwise - or the call never returns for step = 0 / negative / NaN."""
+    from ..cfg import Conditions
+    from .guards import conds_at
+
+    out: List[Instance] = []
+    for fi in prog.all_functions(modules):
+        params = set(fi.param_names()) | (set(fi.parent.param_names()) if fi.parent else set())
+        cond = None
+        for n in walk_own(fi.node):
+            if not (isinstance(n, ast.While) and isinstance(n.test, ast.Compare) and len(n.test.ops) == 1 and isinstance(n.test.ops[0], (ast.Lt, ast.LtE)) and isinstance(n.test.left, ast.Name)):
+                continue
+            var = n.test.left.id
+            steps = [x for x in ast.walk(n) if isinstance(x, ast.AugAssign) and isinstance(x.op, ast.Add) and isinstance(x.target, ast.Name) and x.target.id == var]
+            if len(steps) != 1 or not isinstance(steps[0].value, ast.Name):
+                continue
+            step = steps[0].value.id
+            # the step name is a parameter or a plain copy of one
+            src_ = step
+            if step not in params:
+                defs = [x.value for x in walk_own(fi.node) if isinstance(x, ast.Assign) and any(isinstance(t, ast.Name) and t.id == step for t in x.targets)]
+                if len(defs) == 1 and isinstance(defs[0], ast.Name) and defs[0].id in params:
+                    src_ = defs[0].id
+                else:
+                    continue
+            cond = cond or Conditions(fi.body)
+            positive = False
+            for e, pol in conds_at(cond, n):
+                if isinstance(e, ast.Compare) and len(e.ops) == 1 and isinstance(e.left, ast.Name) and e.left.id in (step, src_) and isinstance(e.comparators[0], ast.Constant) and e.comparators[0].value == 0:
+                    if (isinstance(e.ops[0], ast.Gt) and pol) or (isinstance(e.ops[0], ast.LtE) and not pol):
+                        positive = True
+            out.append(Instance("R-TERMINATION", f"{fi.qual}#while:{var}+={step}", OK if positive else BAD,
+                                f"loop advancing `{var}` by `{step}` is reached only with {src_} > 0" if positive else
+                                f"`while {short(n.test)}` advances by the caller-supplied `{src_}` without that being known positive: {src_} = 0 (or negative, or NaN) never terminates", fi.where(n)))
+    return out
